@@ -33,14 +33,17 @@ Ltac st_eq :=
   | |- @eq Z _ _ => destruct_ifs; lia
   end.
 
-Lemma to_u16_word x s : -32768 <= x < 65536 ->
-  to_u16 (PI x) s = Ok (PI (x mod 65536), s).
+Lemma to_u16_val x : -32768 <= x < 65536 -> to_u16 (PI x) = Ok (PI (x mod 65536)).
 Proof.
-  intros H. unfold to_u16. msimpl.
+  intros H. unfold to_u16, rret, rraise. msimpl.
   destruct (x >=? 65536) eqn:E1; [lia|].
   destruct (x <? -32768) eqn:E2; [lia|]. cbn [negb].
-  destruct (x <? 0) eqn:E3; cbn [negb]; unfold ret; st_eq.
+  destruct (x <? 0) eqn:E3; cbn [negb]; st_eq.
 Qed.
+
+Lemma to_u16_word x s : -32768 <= x < 65536 ->
+  lift (to_u16 (PI x)) s = Ok (PI (x mod 65536), s).
+Proof. intros H. unfold lift. now rewrite to_u16_val. Qed.
 
 Ltac norm_words :=
   rewrite ?land_65535, ?land_255, ?land_1, ?from_u16_PI.
